@@ -65,3 +65,14 @@ fn c17_lookup_excepted_simple_keeps_complex() {
     all.sort();
     assert_eq!(all, vec!["#X".to_string(), "#X > .ad".to_string(), ".c".to_string(), ".c + div".to_string()]);
 }
+
+/// OBL C17.key.escaped_non_ascii
+#[test]
+fn c17_key_escaped_non_ascii_character() {
+    // a backslash in front of a non-ASCII character escapes that one character (CSS unescaping counts characters, not bytes);
+    // building the engine must not panic and the rule is filed under the unescaped name
+    assert_eq!(by_id("###\\Û", "Û"), vec!["#\\Û".to_string()]);
+    assert_eq!(by_class("##.a\\★b", "a★b"), vec![".a\\★b".to_string()]);
+    assert_eq!(by_class("##.\\😀 > div", "😀"), vec![".\\😀 > div".to_string()]);
+    assert_eq!(by_class("##.x\\é\\31 y", "xé1y"), vec![".x\\é\\31 y".to_string()]);
+}
